@@ -852,7 +852,7 @@ pub fn eval<'a>(root: &'a M, a: &'a PathAst) -> Result<Expect<'a>, EvalErr> {
 
 // ---- generation of (document, path) pairs -----------------------------------------------------------
 
-const NAMES: &[&str] = &["a", "b", "k", "key", "k1", "k2", "name", "price", "测试", "x_y", "Z9"];
+const NAMES: &[&str] = &["a", "b", "k", "key", "k1", "k2", "name", "price", "测试", "x_y", "Z9", "1e", "0e", "2x", "e5", "last", "to", "null", "exists"];
 
 fn lit_of(m: &M) -> Option<Lit> {
     match m {
@@ -1046,8 +1046,30 @@ pub fn gen_expr(root: &M, cur: Option<&M>, r: &mut Rnd, depth: u32) -> Expr {
 /// a path built step by step against the document so that hits and misses both occur
 pub fn derive_path_ast(doc: &M, ch: &[u16]) -> PathAst {
     let mut r = Rnd { ch, at: 0 };
-    if r.below(8) == 0 {
-        return PathAst::Predicate(gen_expr(doc, None, &mut r, 0));
+    match r.below(40) {
+        0..=4 => return PathAst::Predicate(gen_expr(doc, None, &mut r, 0)),
+        // accepted by the parser but without an evaluation rule: must be an error, not a panic
+        5 => {
+            let name = NAMES[r.below(4)];
+            let t = [
+                format!("$.{name} + 1"),
+                format!("-$.{name}"),
+                "5 * 5".to_string(),
+                format!("$[0] % $.{name}"),
+                format!("exists(@.{name})"),
+                "exists(@)".to_string(),
+                format!("$.{name} == 1 && exists(@[*])"),
+                "+$[*]".to_string(),
+            ][r.below(8)]
+            .clone();
+            return PathAst::Predicate(Expr::Unsupported(t));
+        }
+        6 => {
+            let name = NAMES[r.below(4)];
+            let t = [format!("@.{name} + 1"), "@ * 2".to_string(), "-@".to_string(), format!("@ - $.{name}")][r.below(4)].clone();
+            return PathAst::Steps(Start::Root, vec![gen_plain_step(Some(doc), &mut r), Step::Filter(Box::new(Expr::Unsupported(t)))]);
+        }
+        _ => {}
     }
     let nsteps = [0, 1, 1, 2, 2, 3, 3, 4, 5][r.below(9)];
     let mut steps = vec![];
@@ -1069,7 +1091,7 @@ pub fn derive_path_ast(doc: &M, ch: &[u16]) -> PathAst {
     }
     // Snowflake-style starts
     let start = match (r.below(10), steps.first()) {
-        (0, Some(Step::Field(FieldForm::Dot, n))) if raw_name_ok(n) => {
+        (0, Some(Step::Field(FieldForm::Dot, n))) if raw_name_ok(n) && bare_start_ok(n) => {
             let n = n.clone();
             steps.remove(0);
             Start::Bare(n)
@@ -1205,7 +1227,7 @@ pub fn random_path_ast(ch: &[u16], strs: &[String]) -> PathAst {
         }
     }
     let start = match (r.below(8), steps.first()) {
-        (0, Some(Step::Field(FieldForm::Dot, n))) if raw_name_ok(n) && !n.chars().next().unwrap().is_ascii_digit() => {
+        (0, Some(Step::Field(FieldForm::Dot, n))) if raw_name_ok(n) && bare_start_ok(n) => {
             let n = n.clone();
             steps.remove(0);
             Start::Bare(n)
@@ -1214,6 +1236,13 @@ pub fn random_path_ast(ch: &[u16], strs: &[String]) -> PathAst {
         _ => Start::Root,
     };
     PathAst::Steps(start, steps)
+}
+
+/// A bare first name is tried as a predicate first: a name that is itself a complete
+/// literal followed by an operator-looking step would be read as one. Names that are a
+/// number or a keyword literal are therefore not used bare; `1e`, `2x`, `k1` are.
+pub fn bare_start_ok(n: &str) -> bool {
+    !matches!(n, "null" | "true" | "false") && n.parse::<f64>().is_err() && !n.starts_with(|c: char| c == '+' || c == '-')
 }
 
 pub fn count_atoms(e: &Expr) -> usize {
